@@ -243,9 +243,10 @@ def startsWith (p l : List Char) : Bool := (stripPrefix p l).isSome
 def titleOk (ind : List Char) (t : List Char) : Bool :=
   noNl t && !t.isEmpty && !isComment t && !startsWith ind t
 
-/-- an expectation text: parses as an expectation, is not a command start and not an exit code -/
+/-- an expectation text: parses as an expectation, is not a command start and has not the form of
+an exit code line `^\[[0-9]+\]$` (in range: an exit code; out of range: an error) -/
 def expTextOk (expOk : List Char → Bool) (t : List Char) : Bool :=
-  noNl t && expOk t && !startsWith ['$', ' '] t && (extractExitCode t).isNone
+  noNl t && expOk t && !startsWith ['$', ' '] t && !isExitCodeForm t
 
 def exitOk (ds : List Char) : Bool :=
   !ds.isEmpty && ds.all isAsciiDigit && decide (digitsVal ds ≤ i32Max)
